@@ -223,6 +223,16 @@ func runRT(c rtCase) pbt.Result {
 			if d := adEq(ad, ag); d != "" {
 				return merge(res, pbt.Failf("%s: loaded advertisement differs from stored one in %s", cd.name, d))
 			}
+			// a loaded advertisement stored again is the same block: an indexer that re-publishes what it loaded
+			// must arrive at the CID it loaded from
+			if rn, err := at.ToNode(); err != nil {
+				return merge(res, pbt.Failf("%s: ToNode of the loaded advertisement: %v", cd.name, err))
+			} else {
+				var rbuf bytes.Buffer
+				if err := cd.enc(rn, &rbuf); err != nil || !bytes.Equal(rbuf.Bytes(), stored) {
+					return merge(res, pbt.Failf("%s: the loaded advertisement encodes to other bytes than the block it was loaded from (err %v): present-but-empty and absent parts are not kept apart\n stored: %s\n again:  %s", cd.name, err, clip(stored), clip(rbuf.Bytes())))
+				}
+			}
 			ab, err := schema.BytesToAdvertisement(l1.(cidlink.Link).Cid, stored)
 			if err != nil {
 				return merge(res, pbt.Failf("%s BytesToAdvertisement: %v", cd.name, err))
@@ -336,7 +346,7 @@ func merge(base, f pbt.Result) pbt.Result {
 
 func TestC13_RoundTrip(t *testing.T) {
 	pbt.Run(t, pbt.Config{Prop: "C13", Unit: "TestC13_RoundTrip",
-		Rule: "advertisements over all combinations of optional parts (previous link, extended providers present with 0..4 entries or absent), 0..5 addresses, context ID nil / 0..20 / exactly 64 B, metadata nil / small / any / exactly 1024 B, arbitrary signature bytes; entry chunks with 0..200 multihashes of mixed functions, with and without next link; both codecs; oracle: encode->decode gives a semantically equal value (nil == empty; optional parts keep presence), storing twice gives one CID, generic-prototype load == typed load == BytesTo...; a second BytesToAdvertisement of the same block after the caller edited the first result, and of a sibling advertisement's bytes under the same CID, give what was encoded; peer IDs in base58 or CIDv1 text form. Non-trivial: at least one optional part present and one absent/empty; distinct by case.",
+		Rule: "advertisements over all combinations of optional parts (previous link, extended providers present with 0..4 entries or absent), 0..5 addresses, context ID nil / 0..20 / exactly 64 B, metadata nil / small / any / exactly 1024 B, arbitrary signature bytes; entry chunks with 0..200 multihashes of mixed functions, with and without next link; both codecs; oracle: encode->decode gives a semantically equal value (nil == empty; optional parts keep presence), storing twice gives one CID, a loaded advertisement encodes to the bytes it was loaded from, generic-prototype load == typed load == BytesTo...; a second BytesToAdvertisement of the same block after the caller edited the first result, and of a sibling advertisement's bytes under the same CID, give what was encoded; peer IDs in base58 or CIDv1 text form. Non-trivial: at least one optional part present and one absent/empty; distinct by case.",
 	}, genRT, runRT)
 }
 
@@ -485,4 +495,11 @@ func FuzzC13_Decode(f *testing.F) {
 			t.Fatal(fail)
 		}
 	})
+}
+
+func clip(b []byte) string {
+	if len(b) > 400 {
+		return fmt.Sprintf("%q...", b[:400])
+	}
+	return fmt.Sprintf("%q", b)
 }
